@@ -268,7 +268,7 @@ def c19_r3(ctx):
             if t.startswith("isinstance(") and t.endswith(".json()['data'], dict)"):
                 return data_dict
             return None
-        catches = lambda h, x: h == x or (x == "ValueError" and h in ("ValueError", "Exception", "JSONDecodeError")) or (x == "InvalidURL" and h in ("InvalidURL", "Exception"))
+        catches = lambda h, x: h == x or (x == "ValueError" and h in ("ValueError", "Exception", "BaseException")) or (x == "InvalidURL" and h in ("InvalidURL", "Exception"))
         it = Interp(fi, atom, raises=raises, catches=catches)
         o = it.run()
         if want == "raise":
